@@ -1241,8 +1241,11 @@ func (f *fragment) minRow(filter *Row) (uint64, uint64) {
 		if filter == nil {
 			return minRowID, 1
 		}
+		// The highest row is read from storage; f.maxRowID is only a
+		// high-water mark for stats and is not maintained by every write path.
+		maxRowID := f.storage.Max() / ShardWidth
 		// iterate from min row ID and return the first that intersects with filter.
-		for i := minRowID; i <= f.maxRowID; i++ {
+		for i := minRowID; i <= maxRowID; i++ {
 			row := f.row(i).Intersect(filter)
 			count := row.Count()
 			if count > 0 {
@@ -1259,16 +1262,25 @@ func (f *fragment) minRow(filter *Row) (uint64, uint64) {
 func (f *fragment) maxRow(filter *Row) (uint64, uint64) {
 	minRowID, hasRowID := f.minRowID()
 	if hasRowID {
+		// The highest row is read from storage; f.maxRowID is only a
+		// high-water mark for stats: imports do not raise it and clears
+		// never lower it.
+		maxRowID := f.storage.Max() / ShardWidth
 		if filter == nil {
-			return f.maxRowID, 1
+			return maxRowID, 1
 		}
 		// iterate back from max row ID and return the first that intersects with filter.
 		// TODO: implement reverse container iteration to improve performance here for sparse data. --Jaffee
-		for i := f.maxRowID; i >= minRowID; i-- {
+		for i := maxRowID; ; i-- {
 			row := f.row(i).Intersect(filter)
 			count := row.Count()
 			if count > 0 {
 				return i, count
+			}
+			// i is unsigned: stop explicitly at the lowest row instead of
+			// testing i >= minRowID, which is always true when minRowID is 0.
+			if i == minRowID {
+				break
 			}
 		}
 	}
